@@ -97,7 +97,8 @@ Record tables := mkT {
   t_rearm_delay_close : bool;
   t_rearm_wait : bool;
   t_rearm_backend_wait : bool;
-  t_h1_close_after_close : bool    (* h1.rs: a response with Connection: close ends the client connection *)
+  t_h1_close_after_close : bool;   (* h1.rs: a response ended by the backend's close ends the client connection *)
+  t_h1_close_if_request_open : bool (* h1.rs: a final response to an unfinished request ends the client connection *)
 }.
 
 (** * The hand mirror of the source (what the theorems are proved about) *)
@@ -160,7 +161,7 @@ Definition spec_known_codes : list N := [301; 302; 308; 400; 401; 404; 408; 421;
 Definition spec_tables : tables :=
   mkT spec_esd spec_connect 301 spec_ft spec_bt spec_end_arm
       [ESetState SUnlinked; EArm] [ESetState SUnlinked; EArm] spec_known_codes
-      3 true true true true true true.
+      3 true true true true true true true.
 
 (** * One stream and its frontend connection *)
 
@@ -185,7 +186,8 @@ Record stream := mkS {
   s_ka : bool;              (* context.keep_alive_backend *)
   s_origin : origin;        (* ghost: who produced the response buffer *)
   s_done : bool;            (* ghost: a final verdict (relay end / default / abort) was emitted *)
-  s_clean : bool            (* ghost: the backend ended its response cleanly *)
+  s_clean : bool;           (* ghost: the backend ended its response cleanly *)
+  s_ropen : bool            (* !front.is_terminated(): the request body is still arriving *)
 }.
 
 Record conn := mkC {
@@ -227,19 +229,19 @@ Definition resolved (T : tables) (code : N) : N :=
   if existsb (N.eqb code) (t_known_codes T) then code else 503.
 
 Definition set_state (s : stream) (x : sstate) : stream :=
-  mkS x (s_attempts s) (s_fcons s) (s_phase s) (s_bcons s) (s_pending s) (s_ka s) (s_origin s) (s_done s) (s_clean s).
+  mkS x (s_attempts s) (s_fcons s) (s_phase s) (s_bcons s) (s_pending s) (s_ka s) (s_origin s) (s_done s) (s_clean s) (s_ropen s).
 Definition set_attempts (s : stream) (n : nat) : stream :=
-  mkS (s_state s) n (s_fcons s) (s_phase s) (s_bcons s) (s_pending s) (s_ka s) (s_origin s) (s_done s) (s_clean s).
+  mkS (s_state s) n (s_fcons s) (s_phase s) (s_bcons s) (s_pending s) (s_ka s) (s_origin s) (s_done s) (s_clean s) (s_ropen s).
 Definition set_fcons (s : stream) (b : bool) : stream :=
-  mkS (s_state s) (s_attempts s) b (s_phase s) (s_bcons s) (s_pending s) (s_ka s) (s_origin s) (s_done s) (s_clean s).
+  mkS (s_state s) (s_attempts s) b (s_phase s) (s_bcons s) (s_pending s) (s_ka s) (s_origin s) (s_done s) (s_clean s) (s_ropen s).
 Definition set_ka (s : stream) (b : bool) : stream :=
-  mkS (s_state s) (s_attempts s) (s_fcons s) (s_phase s) (s_bcons s) (s_pending s) b (s_origin s) (s_done s) (s_clean s).
+  mkS (s_state s) (s_attempts s) (s_fcons s) (s_phase s) (s_bcons s) (s_pending s) b (s_origin s) (s_done s) (s_clean s) (s_ropen s).
 Definition set_back (s : stream) (p : phase) (bc pend : bool) (o : origin) : stream :=
-  mkS (s_state s) (s_attempts s) (s_fcons s) p bc pend (s_ka s) o (s_done s) (s_clean s).
+  mkS (s_state s) (s_attempts s) (s_fcons s) p bc pend (s_ka s) o (s_done s) (s_clean s) (s_ropen s).
 Definition set_done (s : stream) (b : bool) : stream :=
-  mkS (s_state s) (s_attempts s) (s_fcons s) (s_phase s) (s_bcons s) (s_pending s) (s_ka s) (s_origin s) b (s_clean s).
+  mkS (s_state s) (s_attempts s) (s_fcons s) (s_phase s) (s_bcons s) (s_pending s) (s_ka s) (s_origin s) b (s_clean s) (s_ropen s).
 Definition set_clean (s : stream) (b : bool) : stream :=
-  mkS (s_state s) (s_attempts s) (s_fcons s) (s_phase s) (s_bcons s) (s_pending s) (s_ka s) (s_origin s) (s_done s) b.
+  mkS (s_state s) (s_attempts s) (s_fcons s) (s_phase s) (s_bcons s) (s_pending s) (s_ka s) (s_origin s) (s_done s) b (s_ropen s).
 Definition set_arm (c : conn) (i e : bool) : conn :=
   mkC (c_h2 c) i e (c_ftimer c) (c_btimer c) (c_closed c).
 Definition set_timers (c : conn) (f b : bool) : conn :=
@@ -247,7 +249,9 @@ Definition set_timers (c : conn) (f b : bool) : conn :=
 Definition set_closed (c : conn) : conn :=
   mkC (c_h2 c) (c_int_w c) (c_ev_w c) false false true.
 
-Definition fresh : stream := mkS SIdle 0 false PStatusLine false false true ONone false false.
+Definition set_ropen (s : stream) (b : bool) : stream :=
+  mkS (s_state s) (s_attempts s) (s_fcons s) (s_phase s) (s_bcons s) (s_pending s) (s_ka s) (s_origin s) (s_done s) (s_clean s) b.
+Definition fresh : stream := mkS SIdle 0 false PStatusLine false false true ONone false false false.
 
 Record outcome := mkO { o_s : stream; o_c : conn; o_ev : list ev; o_wait : bool; o_write : bool }.
 
@@ -329,6 +333,8 @@ Definition esd (T : tables) (c : conn) (s : stream) : option action :=
 (** * Inputs *)
 Inductive input :=
 | IReqHead                      (* request head parsed: Idle -> Link, queued for connect *)
+| IReqHeadBody                  (* same, and the request has a body that is still arriving (early-response window) *)
+| IReqBodyEnd                   (* the end of the request body was parsed *)
 | IConnect (r : option cause)   (* the pending link is served by Router::connect; None = linked to a backend *)
 | IReqSent                      (* request bytes written to the backend *)
 | IBackPartial                  (* backend bytes parsed, response head incomplete *)
@@ -393,6 +399,12 @@ Definition step (T : tables) (redir : option N) (sc : stream * conn) (i : input)
     | SIdle => (set_state s SLink, c, [])
     | _ => (s, c, [])
     end
+  | IReqHeadBody =>
+    match s_state s with
+    | SIdle => (set_ropen (set_state s SLink) true, c, [])
+    | _ => (s, c, [])
+    end
+  | IReqBodyEnd => (set_ropen s false, c, [])
   | IConnect r =>
     match s_state s with
     | SLink =>
@@ -463,7 +475,8 @@ Definition step (T : tables) (redir : option N) (sc : stream * conn) (i : input)
           | OBackend =>
             (* h1.rs writable: keep-alive reset only if neither side asked to close; an H2
                frontend recycles the stream and keeps the connection *)
-            if c_h2 c || s_ka s || negb (t_h1_close_after_close T) then
+            if c_h2 c || ((s_ka s || negb (t_h1_close_after_close T))
+                          && (negb (s_ropen s) || negb (t_h1_close_if_request_open T))) then
               (fresh, set_arm c false (c_ev_w c), evs0 ++ [EvRelayEnd; EvRecycle])
             else (set_done s1 true, set_closed c, evs0 ++ [EvRelayEnd; EvClose])
           | _ =>
